@@ -272,6 +272,57 @@ def pstr(p):
     return "/".join(p)
 
 
+class shuffled_fs:
+    """In THIS process: os.scandir / os.listdir yield their entries in an order drawn from the seed
+    (the same perturbation as harness/c14_site/sitecustomize.py applies in the analysed interpreters)."""
+
+    def __init__(self, seed):
+        self.seed = seed
+
+    def __enter__(self):
+        if self.seed is None:
+            return self
+        import random
+        rng = random.Random(self.seed)
+        self._scandir, self._listdir = os.scandir, os.listdir
+        real_scandir, real_listdir = os.scandir, os.listdir
+
+        class Shuffled:
+            def __init__(s, it):
+                with it:
+                    ents = sorted(it, key=lambda e: e.name)
+                rng.shuffle(ents)
+                s._it = iter(ents)
+
+            def __iter__(s):
+                return s
+
+            def __next__(s):
+                return next(s._it)
+
+            def __enter__(s):
+                return s
+
+            def __exit__(s, *a):
+                return False
+
+            def close(s):
+                pass
+
+        def listdir(path="."):
+            ents = sorted(real_listdir(path))
+            rng.shuffle(ents)
+            return ents
+        os.scandir = lambda path=".": Shuffled(real_scandir(path))
+        os.listdir = listdir
+        return self
+
+    def __exit__(self, *a):
+        if self.seed is not None:
+            os.scandir, os.listdir = self._scandir, self._listdir
+        return False
+
+
 class C14(Check):
     prop_id = "C14"
     rule = ("T: tables over <= 6 platform names (names chosen so that str order, case and length matter) as contributions in "
@@ -293,7 +344,7 @@ class C14(Check):
         self._tcache = {}
         self._pcache = {}
         self._ocache = {}
-        self.stats = {"kinds": {"T": 0, "P": 0}, "t_rows_hist": {}, "t_platforms_hist": {}, "t_schedules_run": 0,
+        self.stats = {"kinds": {"T": 0, "P": 0, "F": 0}, "t_rows_hist": {}, "t_platforms_hist": {}, "t_schedules_run": 0,
                       "p_schedules_run": 0, "p_files_hist": {}, "p_platforms_hist": {}, "float_values_compared_bit_exact": 0}
         self._pn = 0
         self._first_p = None
@@ -417,6 +468,16 @@ class C14(Check):
             out.append(self.gen_table())
         for _ in range(14 if quick else 260):
             out.append(self.gen_codebase())
+        for _ in range(150 if quick else 3000):
+            c = self.gen_codebase()
+            nev = sum(len(p[2]) for p in c["plats"])
+            perms = []
+            for _ in range(2):
+                a, b = list(range(len(c["files"]))), list(range(nev))
+                self.rng.shuffle(a), self.rng.shuffle(b)
+                perms.append([a, b])
+            out.append({"k": "F", "files": c["files"], "plats": c["plats"],
+                        "runs": [[self.rng.randint(0, 10 ** 6), self.rng.randint(0, 10 ** 6)] for _ in range(3)], "perms": perms})
         return out
 
     # ---------------------------------------------------------------- encoding for the model
@@ -440,6 +501,8 @@ class C14(Check):
         if case["k"] == "T":
             return enc(["T", case["rows"], case["perms"]])
         files, events, cev = self.p_parts(case)
+        if case["k"] == "F":
+            return enc(["F", files, events, case["perms"]])
         return enc(["P", files, events, cev, case["perms"]])
 
     # ---------------------------------------------------------------- I: table cases
@@ -625,8 +688,52 @@ class C14(Check):
         self._pcache[k] = base
         return base
 
+    # ---------------------------------------------------------------- I: finder cases (in process)
+    def impl_F(self, case):
+        """finder.find + get_setmap in this process, three times: the configuration dict and its entry
+        lists in permuted order, os.scandir/os.listdir shuffled.  Observed: the setmap WITH its insertion
+        order, and for every member (in CodeBase order) every CodeNode's lines and platform set."""
+        import logging
+        import random
+        import codebasin
+        from codebasin import finder
+        from codebasin.preprocessor import CodeNode
+        logging.disable(logging.CRITICAL)
+        root = common.scratch() / "c14f"
+        self.materialise(case, root, 0, 0)
+        views = []
+        for k, (pseed, sseed) in enumerate([[0, None]] + case["runs"]):
+            plats = list(case["plats"])
+            prng = random.Random(pseed)
+            if k:
+                prng.shuffle(plats)
+            cfg = {}
+            for name, defs, comp in plats:
+                comp = list(comp)
+                if k:
+                    prng.shuffle(comp)
+                cfg[name] = [{"file": str(root.joinpath(*case["files"][i][0])), "defines": list(defs),
+                              "include_paths": [], "include_files": []} for i in comp]
+            with shuffled_fs(sseed):
+                cb = codebasin.CodeBase(str(root))
+                state = finder.find(str(root), cb, cfg)
+                setmap = state.get_setmap(cb)
+                members = list(cb)
+                per = []
+                for f in members:
+                    assoc = state.get_map(f)
+                    per.append([os.path.relpath(f, root).split(os.sep),
+                                [[list(n.lines), sorted(assoc[n])] for n in state.get_tree(f).walk() if isinstance(n, CodeNode)]])
+            views.append({"setmap": [[sorted(ks), v] for ks, v in setmap.items()], "files": per})
+        shutil.rmtree(root, ignore_errors=True)
+        base = dict(views[0])
+        base["unstable"] = sorted({name for v in views[1:] for name in ("setmap", "files") if v[name] != base[name]})
+        return base
+
     def impl(self, case):
         try:
+            if case["k"] == "F":
+                return self.impl_F(case)
             return self.impl_T(case) if case["k"] == "T" else self.impl_P(case)
         except Exception as e:  # noqa
             return ["Err", type(e).__name__, str(e)[:200]]
@@ -665,6 +772,9 @@ class C14(Check):
                 return None
             v["unstable"] = [] if (inv == 1 and avgrev == 1) else ["model-order-dependent"]
             return v
+        if case["k"] == "F":
+            (setmap, files), inv = ans
+            return {"setmap": setmap, "files": files, "unstable": [] if inv == 1 else ["model-order-dependent"]}
         base, inv = ans
         (tab, flo), export, tree = base
         v, outside, avgrev = self.m_table(tab, flo)
@@ -686,7 +796,7 @@ class C14(Check):
     def impl_view_for_model(self, case, ia):
         if isinstance(ia, list):
             return ia
-        if case["k"] == "T":
+        if case["k"] in ("T", "F"):
             return ia
         v = {k: ia[k] for k in ("rows", "lines", "matrix", "tree", "unstable")}
         v["cov"] = [[f, None, u, n] for f, _id, u, n in ia["cov"]] if isinstance(ia["cov"], list) else ia["cov"]
@@ -721,6 +831,8 @@ class C14(Check):
             contribs, per_file = self.contribs_of(case)
             o = oracle_table(contribs)
             o["per_file"] = per_file
+            o["line_sets"] = sorted([pstr(p), ln, rows[i][0]] for p, lines in case["files"]
+                                    for rows in [per_file[pstr(p)]] for i, n in enumerate(render(lines)[1]) for ln in n)
             by = {}
             for p, lines in case["files"]:
                 by.setdefault(render(lines)[0], []).append(pstr(p))
@@ -743,6 +855,10 @@ class C14(Check):
 
     def spec(self, case, ans):
         o = self.oracle(case)
+        if case["k"] == "F":
+            # the table as a mapping (S says nothing about dict order beyond "the same in every run"),
+            # and every code line of every member with its platform set
+            return {"table": sorted(o["rows"]), "lines": o["line_sets"], "unstable": []}
         v = {"rows": "undef" if o["summary_raises"] else o["rows"], "total": o["total"], "plats": o["plats"],
              "numbers": "agree with the definitions", "unstable": []}
         if case["k"] == "P":
@@ -757,6 +873,9 @@ class C14(Check):
             return ia
         o = self.oracle(case)
         bad = []
+        if case["k"] == "F":
+            lines = sorted([pstr(p), ln, s] for p, nodes in ia["files"] for lns, s in nodes for ln in lns)
+            return {"table": sorted(ia["setmap"]), "lines": lines, "unstable": ia["unstable"]}
         if case["k"] == "T":
             rows = ia["rows"] if ia["rows"] == "undef" else [[r[0], r[1]] for r in ia["rows"]]
             if ia["rows"] != "undef":
@@ -826,6 +945,8 @@ class C14(Check):
 
     def in_domain(self, case, sa):
         o = self.oracle(case)
+        if case["k"] == "F":
+            return True
         return not (o["summary_raises"] or o["undefined_pair"])
 
     def nontrivial(self, case, ia):
@@ -835,6 +956,8 @@ class C14(Check):
         sizes = [len(r[0]) for r in o["rows"]]
         if case["k"] == "T":
             return len(o["plats"]) >= 2 and len(sizes) != len(set(sizes))
+        if case["k"] == "F":
+            return len(o["plats"]) >= 2 and len(o["rows"]) >= 3 and len({tuple(p[:-1]) for p, _ in case["files"]}) > 1
         return len(o["plats"]) >= 2 and len(sizes) != len(set(sizes)) and len({tuple(p[:-1]) for p, _ in case["files"]}) > 1
 
     def classify(self, case, ia, sa):
@@ -853,7 +976,39 @@ class C14(Check):
             rs = common.shrink_list(rows, f, max_steps=60)
             n = len(rs)
             return {"k": "T", "rows": rs, "perms": [list(reversed(range(n))), list(range(1, n)) + [0] if n else []]}
+        if case["k"] == "F":
+            return self.shrink_F(case, still_fails)
         return self.shrink_P(case, still_fails)
+
+    def shrink_F(self, case, still_fails, budget=60):
+        def fix(files, plats):
+            nev = sum(len(p[2]) for p in plats)
+            return {"k": "F", "files": files, "plats": plats, "runs": case["runs"],
+                    "perms": [[list(reversed(range(len(files)))), list(reversed(range(nev)))]]}
+        cur = fix(case["files"], case["plats"])
+        if not still_fails(cur):
+            return case
+        changed = True
+        while changed and budget > 0:
+            changed = False
+            for i in range(len(cur["plats"]) - 1, -1, -1):
+                if len(cur["plats"]) < 2 or budget <= 0:
+                    break
+                cand = fix(cur["files"], cur["plats"][:i] + cur["plats"][i + 1:])
+                budget -= 1
+                if still_fails(cand):
+                    cur, changed = cand, True
+            for j in range(len(cur["files"]) - 1, -1, -1):
+                if len(cur["files"]) < 2 or budget <= 0:
+                    break
+                nf, np_ = self.p_drop_file(cur["files"], cur["plats"], j)
+                if not np_:
+                    continue
+                cand = fix(nf, np_)
+                budget -= 1
+                if still_fails(cand):
+                    cur, changed = cand, True
+        return cur
 
     @staticmethod
     def p_fix(files, plats, sched):
@@ -980,6 +1135,8 @@ class _C14(C14):
                 h[str(len(o["rows"]))] = h.get(str(len(o["rows"])), 0) + 1
                 h = self.stats["t_platforms_hist"]
                 h[str(len(o["plats"]))] = h.get(str(len(o["plats"])), 0) + 1
+            elif c["k"] == "F":
+                self.stats["f_runs"] = self.stats.get("f_runs", 0) + 1 + len(c["runs"])
             else:
                 h = self.stats["p_files_hist"]
                 h[str(len(c["files"]))] = h.get(str(len(c["files"])), 0) + 1
